@@ -253,36 +253,9 @@ Definition thresholds (cfg : jv) (kt : key_type) : res (jv * jv) :=
   do em <- cfg_item cfg (s2p "weak_key_size_ec_medium");;
   Ok (match kt with DSA => (dh, dm) | RSA => (rh, rm) | EC => (eh, em) end).
 
-(* a < b for str *)
-Fixpoint pstr_ltb (a b : pstr) : bool :=
-  match a, b with
-  | _, [] => false
-  | [], _ :: _ => true
-  | x :: a', y :: b' => if (x <? y)%N then true else if (x =? y)%N then pstr_ltb a' b' else false
-  end.
-
-(* literal_value < configuration value: numbers, str against str, list against list (first pair of
-   unequal elements decides, else the shorter list is smaller); anything else is a TypeError *)
-Fixpoint pv_lt_jv (v : pyval) (j : jv) : res bool :=
-  match v, j with
-  | PInt z, (JInt _ | JBool _) =>
-      match thr_num j with Some s => Ok (z <? s)%Z | None => Raise TypeError end
-  | PFloat r _, (JInt _ | JBool _) =>
-      match thr_num j with Some s => Ok (float_ltb_Z r s) | None => Raise TypeError end
-  | PStr a, JStr b => Ok (pstr_ltb a b)
-  | PList l, JList l' =>
-      (fix go (l1 : list pyval) (l2 : list jv) : res bool :=
-         match l1, l2 with
-         | [], [] => Ok false
-         | [], _ :: _ => Ok true
-         | _ :: _, [] => Ok false
-         | u :: l1', w :: l2' => if pv_eq_jv u w then go l1' l2' else pv_lt_jv u w
-         end) l l'
-  | _, _ => Raise TypeError
-  end.
-
-(* key_size < size, for a key_size that is not a str.  When the comparison succeeds against a
-   non-numeric threshold, the message's "%d" % size raises the TypeError instead. *)
+(* key_size < size, reached only with an int or float key_size (see classify_key_size): a numeric
+   threshold (int, or bool as 0/1) is compared exactly; any other threshold (str, None, list, dict)
+   makes Python raise TypeError. *)
 Definition lt_threshold (k : pyval) (size : jv) : res bool :=
   match thr_num size with
   | Some s =>
@@ -291,7 +264,7 @@ Definition lt_threshold (k : pyval) (size : jv) : res bool :=
       | PFloat r _ => Ok (float_ltb_Z r s)
       | _ => Raise TypeError
       end
-  | None => do b <- pv_lt_jv k size;; if b then Raise TypeError else Ok false
+  | None => Raise TypeError
   end.
 
 Definition key_issue (kt : key_type) (lvl : rank) (size : jv) : rissue :=
@@ -301,16 +274,19 @@ Definition key_issue (kt : key_type) (lvl : rank) (size : jv) : rissue :=
           ++ s2p " bits are considered breakable. ")
          None None None None.
 
+(* isinstance(key_size, bool) or not isinstance(key_size, (int, float)) -> return.  A pyval is never a
+   Python bool (True/False literals arrive as the strings 'True'/'False'), so exactly PInt and PFloat pass. *)
+Definition is_number (k : pyval) : bool :=
+  match k with PInt _ | PFloat _ _ => true | _ => false end.
+
 Definition classify_key_size (cfg : jv) (kt : key_type) (k : pyval) : res (option rissue) :=
-  match k with
-  | PStr _ => Ok None
-  | _ =>
-      do th <- thresholds cfg kt;;
-      do b <- lt_threshold k (fst th);;
-      if b then Ok (Some (key_issue kt HIGH (fst th)))
-      else do b2 <- lt_threshold k (snd th);;
-           if b2 then Ok (Some (key_issue kt MEDIUM (snd th))) else Ok None
-  end.
+  if is_number k then
+    do th <- thresholds cfg kt;;
+    do b <- lt_threshold k (fst th);;
+    if b then Ok (Some (key_issue kt HIGH (fst th)))
+    else do b2 <- lt_threshold k (snd th);;
+         if b2 then Ok (Some (key_issue kt MEDIUM (snd th))) else Ok None
+  else Ok None.
 
 (* get_call_arg_value(kw) or get_call_arg_at_position(pos) or 2048 *)
 Definition key_size_of (c : ctx) (kw : pstr) (pos : nat) : res pyval :=
@@ -338,17 +314,11 @@ Definition ec_curve (c : ctx) : res (option pyval) :=
        | a :: _ => Ok (Some a)
        end.
 
-(* curve_key_sizes[curve] if curve in curve_key_sizes else 224  (the membership test hashes curve) *)
-Definition curve_size (curve : option pyval) : res Z :=
+(* curve_key_sizes[curve] if isinstance(curve, str) and curve in curve_key_sizes else 224 *)
+Definition curve_size (curve : option pyval) : Z :=
   match curve with
-  | None => Ok 224%Z
-  | Some v =>
-      if hashable v then
-        match v with
-        | PStr s => Ok (match assoc s curve_key_sizes with Some z => z | None => 224%Z end)
-        | _ => Ok 224%Z
-        end
-      else Raise TypeError
+  | Some (PStr s) => match assoc s curve_key_sizes with Some z => z | None => 224%Z end
+  | _ => 224%Z
   end.
 
 Definition cryptography_io_funcs : list (pstr * key_type) :=
@@ -368,8 +338,7 @@ Definition weak_crypto_key_size_cryptography_io (c : ctx) (cfg : jv) : res (opti
   match func_key_type cryptography_io_funcs c with
   | Some EC =>
       do curve <- ec_curve c;;
-      do ks <- curve_size curve;;
-      classify_key_size cfg EC (PInt ks)
+      classify_key_size cfg EC (PInt (curve_size curve))
   | Some kt =>
       do ks <- key_size_of c (s2p "key_size") (arg_position kt);;
       classify_key_size cfg kt ks
